@@ -132,6 +132,172 @@ def namespace(solver, domains):
     return ns
 
 
+# ---- source-level reference semantics -----------------------------------------------------
+# The same source strings are evaluated a second time with the variables bound to plain values wrapped in the
+# two classes below, and the helper names bound to their Python meaning.  This oracle never sees a cspuz tree,
+# so a constructor that builds the wrong tree (not only a backend that mistranslates a right one) is visible.
+def _rv(x):
+    return x.v if isinstance(x, (RB, RI)) else x
+
+
+def _flat(args):
+    for a in args:
+        if isinstance(a, (list, tuple, RArr)) or hasattr(a, "__next__"):
+            for x in _flat(list(a)):
+                yield x
+        else:
+            yield a
+
+
+class RB(object):
+    def __init__(self, v):
+        assert isinstance(v, bool)
+        self.v = v
+
+    def _b(self, o):
+        o = _rv(o)
+        if not isinstance(o, bool):
+            raise TypeError("bool operand expected")
+        return o
+
+    def __invert__(self):
+        return RB(not self.v)
+
+    def __and__(self, o):
+        return RB(self.v and self._b(o))
+
+    __rand__ = __and__
+
+    def __or__(self, o):
+        return RB(self.v or self._b(o))
+
+    __ror__ = __or__
+
+    def __xor__(self, o):
+        return RB(self.v != self._b(o))
+
+    __rxor__ = __xor__
+
+    def __eq__(self, o):
+        return RB(self.v == self._b(o))
+
+    def __ne__(self, o):
+        return RB(self.v != self._b(o))
+
+    __hash__ = None
+
+    def then(self, o):
+        return RB((not self.v) or self._b(o))
+
+    def cond(self, t, f):
+        return RI(RI._i(t) if self.v else RI._i(f))
+
+    def count_true(self):
+        return RI(1 if self.v else 0)
+
+
+class RI(object):
+    def __init__(self, v):
+        assert isinstance(v, int) and not isinstance(v, bool)
+        self.v = v
+
+    @staticmethod
+    def _i(o):
+        o = _rv(o)
+        if isinstance(o, bool) or not isinstance(o, int):
+            raise TypeError("int operand expected")
+        return o
+
+    def __neg__(self):
+        return RI(-self.v)
+
+    def __add__(self, o):
+        return RI(self.v + self._i(o))
+
+    __radd__ = __add__
+
+    def __sub__(self, o):
+        return RI(self.v - self._i(o))
+
+    def __rsub__(self, o):
+        return RI(self._i(o) - self.v)
+
+    def __eq__(self, o):
+        return RB(self.v == self._i(o))
+
+    def __ne__(self, o):
+        return RB(self.v != self._i(o))
+
+    def __le__(self, o):
+        return RB(self.v <= self._i(o))
+
+    def __lt__(self, o):
+        return RB(self.v < self._i(o))
+
+    def __ge__(self, o):
+        return RB(self.v >= self._i(o))
+
+    def __gt__(self, o):
+        return RB(self.v > self._i(o))
+
+    __hash__ = None
+
+
+class RArr(object):
+    def __init__(self, items):
+        self.items = list(items)
+
+    def __iter__(self):
+        return iter(self.items)
+
+    def fold_or(self):
+        return RB(any(RB._b(None, x) for x in self.items))
+
+    def fold_and(self):
+        return RB(all(RB._b(None, x) for x in self.items))
+
+    def count_true(self):
+        return RI(sum(1 for x in self.items if RB._b(None, x)))
+
+    def alldifferent(self):
+        vs = [RI._i(x) for x in self.items]
+        return RB(len(set(vs)) == len(vs))
+
+
+def ref_namespace(b0, i0, b1, i1):
+    def bools(args):
+        return [RB._b(None, x) for x in _flat(args)]
+
+    def ints(args):
+        return [RI._i(x) for x in _flat(args)]
+
+    def alldiff(*a):
+        vs = ints(a)
+        return RB(len(set(vs)) == len(vs))
+
+    return {
+        "count_true": lambda *a: RI(sum(1 for x in bools(a) if x)),
+        "fold_or": lambda *a: RB(any(bools(a))),
+        "fold_and": lambda *a: RB(all(bools(a))),
+        "alldifferent": alldiff,
+        "cond": lambda c, t, f: RI(RI._i(t) if RB._b(None, c) else RI._i(f)),
+        "then": lambda a, b: RB((not RB._b(None, a)) or RB._b(None, b)),
+        "inv": lambda x: (not x) if isinstance(x, bool) else ~x,
+        "BA": RArr,
+        "IA": RArr,
+        "b0": RB(b0),
+        "i0": RI(i0),
+        "b1": RB(b1),
+        "i1": RI(i1),
+        "__builtins__": {},
+    }
+
+
+def ref_value(src, b0, i0, b1, i1):
+    """Python-level meaning of a source string under one assignment (plain bool / int)."""
+    return _rv(eval(src, ref_namespace(b0, i0, b1, i1)))
+
+
 def admissible(kind, value):
     """Is the evaluated root a well-typed constraint operand of the expected kind?"""
     from cspuz.expr import BoolExpr, IntExpr
@@ -147,6 +313,11 @@ def python_pure(src):
 
 
 def selftest():
+    assert ref_value("count_true([True, b0, [b1, True]])", True, 0, False, 0) == 3
+    assert ref_value("(2 - i0)", True, -1, False, 0) == 3 and ref_value("(True ^ b0)", True, 0, False, 0) is False
+    assert ref_value("(b0).cond(i0, 1)", False, 5, False, 0) == 1 and ref_value("BA([b0, b1]).fold_or()", False, 0, True, 0) is True
+    assert ref_value("alldifferent([i0, 2, i1])", True, 2, True, 3) is False and ref_value("inv(True)", True, 0, True, 0) is False
+    assert ref_value("(i0 == i1)", True, 1, True, 1) is True and ref_value("then(b0, False)", True, 0, True, 0) is False
     assert len(terms("int", 0, FULL)) == 5 and len(terms("bool", 0, FULL)) == 4
     t1 = terms("int", 1, MIN)
     assert "(i0 + 1)" in t1 and "count_true([])" in t1 and "(b0).cond(i0, 1)" in t1
